@@ -1,18 +1,37 @@
-"""mkmutant.py NAME FILE (reads OLD and NEW blocks from stdin separated by a line '=====')
-Creates /verif/mutants/NAME.patch replacing OLD by NEW (exactly one occurrence) in /repo/FILE."""
+"""mkmutant.py NAME [FILE]   (stdin: one or more edits)
+
+Edit syntax on stdin, edits separated by a line '#####':
+    [FILE: path/relative/to/repo]      (optional when FILE is given on the command line)
+    <old text>
+    =====
+    <new text>
+Each <old text> must occur exactly once in its file (after the earlier edits).
+Writes /verif/mutants/NAME.patch (unified diff against the current /repo tree)."""
 import difflib
 import os
 import sys
 
-name, rel = sys.argv[1], sys.argv[2]
-old, new = sys.stdin.read().split("\n=====\n")
-new = new.rstrip("\n") + "\n" if new.strip("\n") else ""
-old = old.rstrip("\n") + "\n"
-src = open(os.path.join("/repo", rel)).read()
-if src.count(old) != 1:
-    sys.exit("OLD occurs %d times in %s" % (src.count(old), rel))
-dst = src.replace(old, new)
-diff = difflib.unified_diff(src.splitlines(True), dst.splitlines(True), "a/" + rel, "b/" + rel)
+name = sys.argv[1]
+default_file = sys.argv[2] if len(sys.argv) > 2 else None
+edits = sys.stdin.read().split("\n#####\n")
+files = {}
+for ed in edits:
+    rel = default_file
+    if ed.startswith("FILE:"):
+        first, ed = ed.split("\n", 1)
+        rel = first[5:].strip()
+    old, new = ed.split("\n=====\n")
+    new = new.rstrip("\n") + "\n" if new.strip("\n") else ""
+    old = old.rstrip("\n") + "\n"
+    if rel not in files:
+        src = open(os.path.join("/repo", rel)).read()
+        files[rel] = [src, src]
+    cur = files[rel][1]
+    if cur.count(old) != 1:
+        sys.exit("OLD occurs %d times in %s:\n%s" % (cur.count(old), rel, old))
+    files[rel][1] = cur.replace(old, new)
 out = os.path.join(os.path.dirname(os.path.dirname(os.path.abspath(__file__))), "mutants", name + ".patch")
-open(out, "w").write("".join(diff))
+with open(out, "w") as f:
+    for rel, (src, dst) in sorted(files.items()):
+        f.write("".join(difflib.unified_diff(src.splitlines(True), dst.splitlines(True), "a/" + rel, "b/" + rel)))
 print("wrote", out)
